@@ -144,3 +144,5 @@ func evalForms(ctx context.Context, ns types.EnvType, forms []types.MalType) (re
 	}
 	return res, nil
 }
+
+func lispRead(src string, ns types.EnvType) (types.MalType, error) { return lisp.READ(src, nil, ns) }
